@@ -144,6 +144,9 @@ Record c4_pst := mkC4pst {
 }.
 Definition c4_pst0 : c4_pst := mkC4pst [] [] 0 0 0 0 [] 0.
 
+(* a leaf (a kid without /Kids): only the duplicate guard `seen` is modelled.  Not in this skeleton (they are in C13's
+   Struct/PgModel.v pg_leaf): the repairs of /MediaBox, /Resources, /Annots, /Type, the "too many errors" rule of a
+   reconstructed file, and direct (non-indirect) kids, which are made indirect first and cannot be shared. *)
 Definition c4_pleaf (recon : bool) (kid : N) (st : c4_pst) : c4_pst :=
   let '(ok, seen') := c4_add kid (c4ps_seen st) in
   if ok then mkC4pst (c4ps_vis st) seen' (c4ps_pages st + 1) (c4ps_copies st) (c4ps_skipped st) (c4ps_calls st)
